@@ -31,6 +31,7 @@ class ManagedBSE:
         s.W = ManagedWorld(prog, c['env'])
         s.M = s.W.M
         s.M.task_mode = not c['thread_mode']
+        s.M.fine_points = bool(c.get('fine'))
         s.tasks = list(c.get('task_names') or [f'T{i + 1}' for i in range(c['tasks'])])
         s.probe_cache = {}
         s.nprobes = 0
@@ -83,7 +84,7 @@ class ManagedBSE:
         if st.gget('pool') is None: return []
         acts = []
         for t in s.tasks + ['C']:
-            if st.threads[t].stack: acts.append(('step', t))
+            if st.threads[t].stack and not s.blocked(st, t): acts.append(('step', t))
         if s.cfg.get('max_preempt') is not None and acts:
             # preemption bounding: while some thread is in the middle of an operation, starting or resuming another
             # thread counts as a preemption
@@ -113,6 +114,13 @@ class ManagedBSE:
     # Every harness operation is a small state machine (phases) whose MIR runs on the operation's thread.  In task mode
     # an operation runs to completion; in thread mode it stops at every schedule point (`verif::point`, user callbacks)
     # and is resumed by a ('step', thread) action.
+    def blocked(s, st, t):
+        ap = st.threads[t].at_point
+        if isinstance(ap, tuple) and ap[0] == 'blocked' and ap[1] is not None:
+            m = s.M.deref(st, ap[1])
+            return m.f[1] != Opaque('unlocked')
+        return False
+
     def thread_of(s, a):
         if a[0] in ('get', 'poll', 'cancel', 'drop', 'take', 'step'): return a[1]
         if a[0] in ('resize', 'close') and len(a) > (2 if a[0] == 'resize' else 1): return a[-1]
@@ -195,6 +203,8 @@ class ManagedBSE:
                 s.set_op(st, t, a, 'dropping', res=('ok',), oid=oid, after_close=bool(st.gget('closed_ret')))
                 s.M.start_drop(st, th, [obj])
             else:
+                # Object::take consumes the Object: from here on the value is the caller's, not the pool's
+                s.W.env.g_obj(st, oid, handed='+1'); st.logev('handed', oid, 'take')
                 s.set_op(st, t, a, 'taking', oid=oid)
                 s.M.push_mir(st, th, W.F('::take'), [obj])
             return [st]
@@ -259,7 +269,6 @@ class ManagedBSE:
             return s.end_op(st, t, a, res, **{k: v for k, v in data.items() if k != 'res'})
         if phase == 'taking':
             if result[0] != 'ok': return s.end_op(st, t, a, result, oid=data['oid'])
-            s.W.env.g_obj(st, data['oid'], handed='+1'); st.logev('handed', data['oid'], 'take')
             s.set_op(st, t, a, 'dropping', res=('ok', 'taken'), oid=data['oid']); s.M.start_drop(st, th, [result[1]]); return [st]
         if phase == 'simple':
             if a[0] == 'close' and result[0] == 'ok': st.gset('closed_ret', True)
@@ -317,6 +326,7 @@ class ManagedBSE:
 
     def snapshot(s, st):
         """ground truth + real status() (on a scratch copy) for the single-task differential of C03"""
+        if s.any_lock_held(st): return {'status': None, 'live': tuple(sorted(s.live_ids(st))), 'permits': s.semaphore(st).f[0], 'queue': 0, 'assigned': 0}
         sc = st.clone()
         res = s.W.status(sc, 'S', sc.gget('pool'))
         S = res[0][1][1] if len(res) == 1 and res[0][1][0] == 'ok' else None
@@ -412,6 +422,8 @@ class ManagedBSE:
         if st.gget('pool') is None: return out
         O = s.cfg['oracles']
         busy = any(st.threads[t].stack for t in s.tasks + ['C'])
+        if busy and all(s.blocked(st, t) for t in s.tasks + ['C'] if st.threads[t].stack):
+            out.append(s.vio('C02' if 'C02' in O else O[0], 'deadlock: every thread that is inside a pool operation waits for a lock', st)); return out
         if 'C06' in O and st.gget('closed_ret') and not busy:
             live = len(s.live_ids(st)); out_n = sum(len(st.threads[t].local['objs']) for t in s.tasks)
             idle = live - out_n - s.in_progress_objs(st)
@@ -422,7 +434,7 @@ class ManagedBSE:
             for t in s.queued_tasks(st):
                 out.append(s.vio('C06', f'{t} is still queued for a slot after close() returned', st))
         if out and any(not v.get('known') for v in out): return out
-        if 'C11' in O: out.extend(s.check_status(st))
+        if 'C11' in O and not s.any_lock_held(st): out.extend(s.check_status(st))
         if out: return out
         if 'C02' in O and s.cfg['probe'] and not busy: out.extend(s.probe(st))
         if 'C07' in O and st.gget('resizes') and not st.gget('closed_ret') and not busy:
@@ -433,6 +445,22 @@ class ManagedBSE:
             for v in s.capacity_probe(st, I(st.gget('resizes')[-1]), 'C09'):
                 v['what'] = 'take()/return after resize: ' + v['what']; out.append(v)
         return out
+
+    def any_lock_held(s, st):
+        """fine mode: a thread preempted inside a critical section holds the slots lock; status() would block"""
+        if not s.cfg.get('fine'): return False
+        held = False
+        def walk(v):
+            nonlocal held
+            if isinstance(v, Agg):
+                if v.ty == 'Mutex':
+                    if v.f[1] != Opaque('unlocked'): held = True
+                    return
+                if v.ty == 'Obj': return
+                for x in v.f.values(): walk(x)
+        pool = st.heap[st.gget('pool')]
+        walk(st.heap[pool.f[0].f[0].root])
+        return held
 
     def c07_known(s, st, d):
         fl = st.gget('flags', ())
